@@ -85,6 +85,7 @@ func main() {
 		g.session(k, *ops)
 	}
 	if !*nosub {
+		g.subTransplant()
 		g.subtrees(int64(*submax), *subrand)
 	}
 	if *probe {
